@@ -271,7 +271,7 @@ func c06Families(tier string) []explore.Family {
 		N = 6
 	}
 	K := len(c06Alpha)
-	return []explore.Family{c06SemFamily(tier), c06DeepFamily(), c06ClauseScaleFamily(), c06EnginesFamily(), c06SpellingFamily(tier), c06TwoOpaqueBlocksFamily(), c06WhitespaceBodiesFamily(), {Name: fmt.Sprintf("token-sequences<=%d", N), Count: seqCount(K, N), Run: func(i int64, r *explore.Rec) {
+	return []explore.Family{c06SemFamily(tier), c06DeepFamily(), c06ClauseScaleFamily(), c06EnginesFamily(), c06SpellingFamily(tier), c06TwoOpaqueBlocksFamily(), c06WhitespaceBodiesFamily(), c06TagArgumentsFamily(), {Name: fmt.Sprintf("token-sequences<=%d", N), Count: seqCount(K, N), Run: func(i int64, r *explore.Rec) {
 		seq := seqAt(K, i)
 		var sb strings.Builder
 		for k, si := range seq {
@@ -811,7 +811,7 @@ func c06SpellingFamily(tier string) explore.Family {
 	}}
 }
 
-// ---- eighth family: block and clause bodies made only of whitespace; seventh family: two raw/comment blocks whose tags are spelled INDEPENDENTLY (8 x 8 spellings of the two
+// ---- ninth family: words written after else and end tags; eighth family: block and clause bodies made only of whitespace; seventh family: two raw/comment blocks whose tags are spelled INDEPENDENTLY (8 x 8 spellings of the two
 // end tags, 3 of the opening tags), with a structural token between them that is balanced, unbalanced or stray:
 // each block must end at its own end tag, so what stands between them is parsed as ordinary tags.
 func c06TwoOpaqueBlocksFamily() explore.Family {
@@ -905,6 +905,34 @@ func c06WhitespaceBodiesFamily() explore.Family {
 		r.Class("whitespace-body")
 		if o.Panic != nil || o.Err != nil || got != want {
 			r.Violation("A3:rendered-markers:whitespace-only-body", map[string]any{"template": src}, strconv.Quote(want), o.String())
+		}
+	}}
+}
+
+// ---- ninth family: an else or end tag is that tag whatever stands after its name: words written behind it
+// ("else if c", "endif comment") change neither the structure nor what is rendered.
+func c06TagArgumentsFamily() explore.Family {
+	forms := []struct{ src, want string }{ // %e = else tag, %x = the end tag's extra words
+		{"[{% if false %}A{% ELSE %}B{% endif%x %}]", "[B]"}, {"[{% if true %}A{% ELSE %}B{% endif%x %}]", "[A]"},
+		{"[{% if false %}A{% elsif false %}B{% ELSE %}C{% endif%x %}]", "[C]"}, {"[{% if false %}A{% ELSE %}B{% else %}C{% endif%x %}]", "[B]"},
+		{"[{% unless true %}A{% ELSE %}B{% endunless%x %}]", "[B]"}, {"[{% case 1 %}{% when 2 %}A{% ELSE %}B{% endcase%x %}]", "[B]"},
+		{"[{% case 1 %}{% when 1 %}A{% ELSE %}B{% endcase%x %}]", "[A]"}, {"[{% for i in (1..0) %}A{% ELSE %}B{% endfor%x %}]", "[B]"},
+		{"[{% for i in (1..2) %}A{% ELSE %}B{% endfor%x %}]", "[AA]"}, {"[{% if false %}{% if true %}A{% ELSE %}B{% endif%x %}{% ELSE %}C{% endif %}]", "[C]"},
+		{"[{% capture c %}A{% endcapture%x %}{{ c }}]", "[A]"}, {"[{% raw %}A{% endraw %}{% comment %}B{% endcomment %}]", "[A]"},
+	}
+	elseArgs := []string{"", " if false", " if true", " junk", " 1", " x y z", " if", " unless true", " elsif true", "\tif false"}
+	endArgs := []string{"", " junk", " if true", " 1"}
+	return explore.Family{Name: "words-after-else-and-end-tags", Count: int64(len(forms) * len(elseArgs) * len(endArgs)), Run: func(i int64, r *explore.Rec) {
+		rx := radix{i}
+		xa, ea, f := endArgs[rx.next(len(endArgs))], elseArgs[rx.next(len(elseArgs))], forms[rx.next(len(forms))]
+		src := strings.ReplaceAll(strings.ReplaceAll(f.src, "{% ELSE %}", "{% else"+ea+" %}"), "%x", xa)
+		r.Eval()
+		r.Transition()
+		r.Trace()
+		o := Render(c06.eng, src, map[string]any{})
+		r.Class("tag-arguments")
+		if o.Panic != nil || o.Err != nil || o.Out != f.want {
+			r.Violation("A3:rendered-markers:words-after-else-or-end-tag", map[string]any{"template": src}, f.want, o.String())
 		}
 	}}
 }
